@@ -276,3 +276,636 @@ pub fn nops(ans: &str) -> usize {
         }
     }
 }
+
+// ------------------------------------------------------------------ twin / crash / fault / malformed generators
+
+/// a session script: device, preamble, image, the operations (start, seg..., check)
+pub struct Script {
+    pub geo: Geo,
+    pub pre: Vec<String>,
+    pub img: Img,
+    pub ops: Vec<String>, // "start sz n", "seg i hex"..., "check"
+}
+
+pub fn small_script(rng: &mut Rng, o: &mut Out, with_preamble: bool) -> Script {
+    // small geometries so that every operation boundary can be enumerated
+    let nslots = *rng.pick(&[4usize, 4, 5, 6]);
+    let block = *rng.pick(&[1024usize, 4096]);
+    let slot = ((17408 / block) + 1 + rng.range(0, 2) as usize) * block;
+    let geo = Geo { nslots, slot, block };
+    let sz = *rng.pick(&[1usize, 3, 4, 7, 17, 40]);
+    let room = slot - 0x4400;
+    let n = rng.range(2, 14).min((room / sz) as u64) as usize;
+    let cap = capacity(slot, sz);
+    let img = Img::make(rng, sz, n.max(1));
+    let n = img.n;
+    let nloss = rng.range(0, (cap.min(n).min(4)) as u64) as usize;
+    let mut idx: Vec<usize> = (0..n).collect();
+    rng.shuffle(&mut idx);
+    let lost: Vec<usize> = idx[..nloss].to_vec();
+    let ncoded = nloss + rng.range(0, 3) as usize;
+    let seq = delivery(rng, n, &lost, ncoded, o);
+    let mut ops = vec![format!("start {} {}", sz, n)];
+    for i in &seq {
+        ops.push(format!("seg {} {}", i, hex(&img.fragment(*i))));
+    }
+    // full pass of the data so that the reference run always completes
+    for i in 1..=n as u32 {
+        ops.push(format!("seg {} {}", i, hex(&img.fragment(i))));
+    }
+    ops.push("check".into());
+    let pre = if with_preamble { preamble(rng, &geo) } else { vec![] };
+    Script { geo, pre, img, ops }
+}
+
+impl Script {
+    pub fn head(&self) -> Vec<String> {
+        let mut q = vec![format!("new dev {} {} {}", self.geo.nslots, self.geo.slot, self.geo.block)];
+        q.extend(self.pre.clone());
+        q.extend(self.img.lines());
+        q
+    }
+    pub fn full_pass(&self) -> Vec<String> {
+        (1..=self.img.n as u32).map(|i| format!("seg {} {}", i, hex(&self.img.fragment(i)))).collect()
+    }
+}
+
+/// G4 (C07): clean reboot between two fragments, at every position (sampled in quick tier), 1..3 reboots
+pub fn gen_reboot(seed: u64, thorough: bool, o: &mut Out) -> Vec<String> {
+    let mut rng = Rng::new(seed ^ 0x07);
+    let mut q = vec![];
+    let nscn = if thorough { 120 } else { 14 };
+    for it in 0..nscn {
+        let mut s = small_script(&mut rng, o, it % 2 == 0);
+        while capacity(s.geo.slot, s.img.sz) == 0 {
+            s = small_script(&mut rng, o, it % 2 == 0);
+        }
+        // reference (uninterrupted) run
+        q.extend(s.head());
+        q.push("base begin".into());
+        q.extend(s.ops.clone());
+        q.push("base end".into());
+        q.push("dump".into());
+        let nops = s.ops.len();
+        let mut positions: Vec<usize> = (1..nops).collect(); // after op p-1, before op p (p=1: before the first fragment)
+        if !thorough && positions.len() > 10 {
+            rng.shuffle(&mut positions);
+            positions.truncate(10);
+            positions.push(1);
+            positions.push(nops - 1); // after completion, before the final mark
+        }
+        for p in positions {
+            q.extend(s.head());
+            q.push("variant C07 reboot".into());
+            let reboots = rng.range(1, 3);
+            for (j, op) in s.ops.iter().enumerate() {
+                if j == p {
+                    for _ in 0..reboots {
+                        q.push("reboot".into());
+                        q.push("recover".into());
+                    }
+                }
+                q.push(op.clone());
+            }
+            q.push("dump".into());
+            o.stat("reboot-positions");
+        }
+    }
+    q
+}
+
+fn site_of(addr_slot: usize, off: usize, fw: usize, par: usize, in_finish: bool, kind: &str, first_parity_write_of_seg: bool) -> &'static str {
+    let _ = kind;
+    if addr_slot == fw {
+        if in_finish { "finish" } else if off < 0x400 { "header" } else if off < 0x4400 { "status" } else { "data" }
+    } else if addr_slot == par {
+        if off < 0x400 { "header" } else if first_parity_write_of_seg { "parity-block" } else { "row" }
+    } else {
+        "other-slot"
+    }
+}
+
+/// per operation of a script: the list of (site class) of its mutating ops, from a reference run
+pub fn op_sites(s: &Script) -> Vec<Vec<&'static str>> {
+    let mut lines = s.head();
+    lines.extend(s.ops.clone());
+    let ans = reference(&lines);
+    let base = s.head().len();
+    // learn fw / par from the start answer
+    let start_ans = &ans[base];
+    let getk = |k: &str| -> usize {
+        start_ans.split(" ; ").find(|p| p.starts_with(k)).map(|p| p[k.len()..].parse().unwrap_or(99)).unwrap_or(99)
+    };
+    let (fw, par) = (getk("fw="), getk("par="));
+    let mut out = vec![];
+    for (j, _) in s.ops.iter().enumerate() {
+        let a = &ans[base + j];
+        let opsf = a.split(" ; ").find(|p| p.starts_with("ops=")).map(|p| &p[4..]).unwrap_or("-");
+        let mut v = vec![];
+        if opsf != "-" {
+            let is_start = s.ops[j].starts_with("start");
+            let is_check = s.ops[j] == "check";
+            let mut seen_par = false;
+            let mut seen_row = false;
+            for op in opsf.split(',') {
+                // E<slot>+<off> | W<slot>+<off>:...
+                let body = &op[1..];
+                let (sl, rest) = body.split_once('+').unwrap();
+                let off: usize = rest.split(':').next().unwrap().parse().unwrap();
+                let sl: usize = sl.parse().unwrap();
+                let site = if is_start { "start" } else if is_check { "mark" } else {
+                    let first_par = sl == par && !seen_par;
+                    let st = site_of(sl, off, fw, par, seen_row, "", first_par);
+                    if sl == par {
+                        if seen_par { seen_row = true; }
+                        seen_par = true;
+                    }
+                    st
+                };
+                v.push(site);
+            }
+        }
+        out.push(v);
+    }
+    out
+}
+
+/// G5 (C06): power loss at every mutating-op boundary of start / fragments / check, then recovery and completion
+pub fn gen_crash_resume(seed: u64, thorough: bool, o: &mut Out) -> Vec<String> {
+    let mut rng = Rng::new(seed ^ 0x06);
+    let mut q = vec![];
+    let nscn = if thorough { 60 } else { 8 };
+    for it in 0..nscn {
+        let mut s = small_script(&mut rng, o, it % 3 == 0);
+        while capacity(s.geo.slot, s.img.sz) == 0 {
+            s = small_script(&mut rng, o, it % 3 == 0);
+        }
+        let sites = op_sites(&s);
+        let mut points: Vec<(usize, usize)> = vec![];
+        for (j, v) in sites.iter().enumerate() {
+            for k in 0..v.len() {
+                points.push((j, k));
+            }
+        }
+        if !thorough && points.len() > 60 {
+            // keep every non-start point class, thin out the (many) erase ops of start
+            let mut keep: Vec<(usize, usize)> = points.iter().cloned().filter(|(j, _)| *j != 0).collect();
+            let mut st: Vec<(usize, usize)> = points.iter().cloned().filter(|(j, _)| *j == 0).collect();
+            rng.shuffle(&mut st);
+            st.truncate(12);
+            rng.shuffle(&mut keep);
+            keep.truncate(48);
+            keep.extend(st);
+            points = keep;
+        }
+        for (j, k) in points {
+            let site = sites[j][k];
+            // the interrupted fragment is lost or re-sent after the reboot
+            let resend = rng.chance(1, 2);
+            q.extend(s.head());
+            for op in &s.ops[..j] {
+                q.push(op.clone());
+            }
+            q.push(format!("crash {}", k));
+            q.push(s.ops[j].clone());
+            q.push("reboot".into());
+            let key = format!("crash-site={}{}", site, if site == "row" && !resend { "-lost" } else { "" });
+            q.push(format!("variant C06 {}", key));
+            q.push("recover".into());
+            if j == 0 {
+                // loss inside start_update: recovery may report none; the device must be able to start again
+                q.push(s.ops[0].clone());
+                for op in &s.ops[1..] {
+                    q.push(op.clone());
+                }
+            } else if s.ops[j] == "check" {
+                q.extend(s.full_pass());
+                q.push("check".into());
+            } else {
+                let from = if resend { j } else { j + 1 };
+                for op in &s.ops[from..s.ops.len() - 1] {
+                    q.push(op.clone());
+                }
+                q.extend(s.full_pass());
+                q.push("check".into());
+            }
+            q.push("dump".into());
+            o.stat(&format!("crash-site-{}", site));
+        }
+    }
+    q
+}
+
+/// G6 (C18, flash level): one transient SpiFlash write/erase fault at each mutating-op index of a fragment, redelivery
+pub fn gen_flash_faults(seed: u64, thorough: bool, o: &mut Out) -> Vec<String> {
+    let mut rng = Rng::new(seed ^ 0x18);
+    let mut q = vec![];
+    let nscn = if thorough { 60 } else { 8 };
+    for it in 0..nscn {
+        let s = small_script(&mut rng, o, it % 3 == 0);
+        let sites = op_sites(&s);
+        let mut points: Vec<(usize, usize)> = vec![];
+        for (j, v) in sites.iter().enumerate().skip(1) {
+            if s.ops[j] == "check" {
+                continue;
+            }
+            for k in 0..v.len() {
+                points.push((j, k));
+            }
+        }
+        if !thorough && points.len() > 40 {
+            rng.shuffle(&mut points);
+            points.truncate(40);
+        }
+        // thorough: also sequences of up to 3 faults (each followed by redelivery)
+        for (j, k) in points {
+            let site = sites[j][k];
+            q.extend(s.head());
+            q.push(format!("variant C18 fault-site={}", site));
+            for (jj, op) in s.ops.iter().enumerate() {
+                if jj == j {
+                    q.push(format!("fault {}", k));
+                    q.push(op.clone()); // fails
+                    q.push("skipbase 0".into());
+                }
+                q.push(op.clone());
+            }
+            q.push("dump".into());
+            o.stat(&format!("fault-site-{}", site));
+        }
+    }
+    q
+}
+
+/// G6r (C18, oracle only): transient fault on *any* operation index (reads included)
+pub fn gen_flash_faults_reads(seed: u64, thorough: bool, o: &mut Out) -> Vec<String> {
+    let mut rng = Rng::new(seed ^ 0x181);
+    let mut q = vec![];
+    let nscn = if thorough { 40 } else { 6 };
+    for it in 0..nscn {
+        let s = small_script(&mut rng, o, it % 3 == 0);
+        // number of flash operations (reads + mutations) per fragment: probe by failing op k until no fault fires
+        for j in 1..s.ops.len() - 1 {
+            let maxk = if thorough { 40 } else { 12 };
+            for k in 0..maxk {
+                if !thorough && !rng.chance(1, 3) {
+                    continue;
+                }
+                q.extend(s.head());
+                q.push("variant C18 fault-site=any-op".into());
+                for (jj, op) in s.ops.iter().enumerate() {
+                    if jj == j {
+                        q.push(format!("!faultop {}", k));
+                        q.push(op.clone());
+                    }
+                    q.push(op.clone());
+                }
+                o.stat("read-or-write-fault-points");
+            }
+        }
+    }
+    q
+}
+
+/// G3 (C17): malformed fragment indices at every stage of a session; arbitrary flash contents
+pub fn gen_malformed(seed: u64, thorough: bool, o: &mut Out) -> Vec<String> {
+    let mut rng = Rng::new(seed ^ 0x17);
+    let mut q = vec![];
+    let nscn = if thorough { 80 } else { 10 };
+    for it in 0..nscn {
+        let s = small_script(&mut rng, o, it % 2 == 0);
+        let n = s.img.n as u32;
+        let bad: Vec<u32> = vec![0, n + 1240005543, 1 << 14, 1 << 16, 0xFFFF_FFFF, 0xFFFF_FFFE, n + 2049, n + 16384, (rng.next() as u32) | 0x8000_0000];
+        // positions: before the first fragment, in stage 1, in stage 2, after completion
+        let mut positions: Vec<usize> = (1..s.ops.len()).collect();
+        if !thorough {
+            rng.shuffle(&mut positions);
+            positions.truncate(4);
+            positions.push(1);
+            positions.push(s.ops.len() - 1);
+        }
+        for p in positions {
+            q.extend(s.head());
+            q.push("base begin".into());
+            // the reference for "the session still completes correctly" is the oracle of check itself
+            q.push("base end".into());
+            for (j, op) in s.ops.iter().enumerate() {
+                if j == p {
+                    for b in &bad {
+                        // index 0 must be a no-op; indices beyond n are coded fragments of some row: only deliver
+                        // *consistent* data for those (the XOR the row defines), otherwise the session is poisoned
+                        if *b == 0 {
+                            q.push(format!("seg 0 {}", hex(&s.img.fragment(1))));
+                        } else if *b > n {
+                            q.push(format!("seg {} {}", b, hex(&s.img.fragment(*b))));
+                        }
+                        o.stat("malformed-index-deliveries");
+                    }
+                }
+                q.push(op.clone());
+            }
+            q.push("dump".into());
+        }
+    }
+    // arbitrary flash contents: random / adversarial headers, status tables and data, then every query call
+    let ncraft = if thorough { 3000 } else { 300 };
+    let legal: [Vec<u32>; 7] = [
+        vec![0, 1],
+        vec![0, 1, 2, 3, 4, 5, 6, 7, 0x7FFF_FFFF, 0xFFFF_FFFD, 0xFFFF_FFFE],
+        vec![1, 4, 40, 255, 256],
+        vec![1, 2, 18, 300, 2047, 2048, 2049, 3000, 16384],
+        vec![0xFFFF_FFFF, 0xAAAA_AAAA, 0x4444_4444],
+        vec![0xFFFF_FFFF, 0x1111_1111],
+        vec![0xFFFF_FFFF, 0xABCD_1234, 0xCDEF_7890],
+    ];
+    for it in 0..ncraft {
+        let nslots = *rng.pick(&[4usize, 5, 6]);
+        let slot = *rng.pick(&[20480usize, 20480, 24576, 65536, 262144, 1048576]);
+        if slot > 65536 && !thorough && it % 8 != 0 {
+            continue;
+        }
+        q.push(format!("new dev {} {} 4096", nslots, slot));
+        let base_seq = *rng.pick(&[0u32, 5, 0xFFFF_FFF0]);
+        for sl in 0..nslots {
+            let style = rng.below(6);
+            let mut w = [0xFFFF_FFFFu32; 7];
+            match style {
+                0 => {} // blank
+                1 | 2 | 3 => {
+                    for i in 0..7 {
+                        w[i] = *rng.pick(&legal[i]);
+                    }
+                    if rng.chance(2, 3) {
+                        w[1] = base_seq.wrapping_add(rng.below(nslots as u64 + 1) as u32);
+                    }
+                    if style == 3 {
+                        let i = rng.below(7) as usize;
+                        w[i] = rng.next() as u32;
+                    }
+                }
+                4 => {
+                    for i in 0..7 {
+                        w[i] = rng.next() as u32;
+                    }
+                }
+                _ => {
+                    // a plausible in-progress pair member
+                    w = [(sl % 2) as u32, base_seq.wrapping_add(sl as u32), 4, 18, 0xFFFF_FFFF, 0xFFFF_FFFF, 0xFFFF_FFFF];
+                }
+            }
+            if style != 0 {
+                q.push(format!("poke {} {}", sl * slot, hex(&w.iter().flat_map(|x| x.to_le_bytes()).collect::<Vec<u8>>())));
+            }
+            // status table / data / parity region contents
+            match rng.below(4) {
+                0 => {}
+                1 => q.push(format!("fill {} {} {}", sl * slot + 0x400, 64, rng.next() % 100000)),
+                2 => {
+                    let tbl: Vec<u8> = (0..40).map(|_| if rng.chance(1, 2) { 0x33 } else { 0xFF }).collect();
+                    q.push(format!("poke {} {}", sl * slot + 0x400, hex(&tbl)));
+                }
+                _ => q.push(format!("fill {} {} {}", sl * slot + 0x4400, 200, rng.next() % 100000)),
+            }
+        }
+        for sl in 0..nslots {
+            if rng.chance(1, 2) {
+                q.push(format!("valid {}", sl));
+            }
+        }
+        q.push("bl".into());
+        q.push("fb".into());
+        q.push("recover".into());
+        q.push("recover".into());
+        q.push("bl".into());
+        q.push("fb".into());
+        q.push("start 4 18".into());
+        q.push("dump".into());
+        o.stat("crafted-flash-images");
+    }
+    q
+}
+
+/// G7 (C04): power loss (incl. torn programs) inside every kind of operation, then the post-reboot calls and a sweep
+pub fn gen_crash_sweep(seed: u64, thorough: bool, o: &mut Out) -> Vec<String> {
+    let mut rng = Rng::new(seed ^ 0x04);
+    let mut q = vec![];
+    let nscn = if thorough { 40 } else { 6 };
+    let post = |q: &mut Vec<String>| {
+        q.push("reboot".into());
+        q.push("sweep".into());
+        q.push("recover".into());
+        q.push("bl".into());
+        q.push("fb".into());
+        q.push("sweep".into());
+        q.push("start 4 18".into());
+        q.push("sweep".into());
+        q.push("dump".into());
+    };
+    for it in 0..nscn {
+        let s = small_script(&mut rng, o, it % 2 == 0);
+        let sites = op_sites(&s);
+        // the script is extended by the bootloader / application marks on the completed slot
+        let mut lines = s.head();
+        lines.extend(s.ops.clone());
+        let ans = reference(&lines);
+        let done_slot: Option<usize> = ans.last().and_then(|a| a.strip_prefix("res=Ok(")).and_then(|r| r.split(')').next()).and_then(|x| x.parse().ok());
+        let mut points: Vec<(usize, usize, usize)> = vec![]; // (op, mutating index, payload length)
+        for (j, v) in sites.iter().enumerate() {
+            for k in 0..v.len() {
+                points.push((j, k, 4));
+            }
+        }
+        if !thorough && points.len() > 40 {
+            let mut keep: Vec<(usize, usize, usize)> = points.iter().cloned().filter(|(j, _, _)| *j != 0).collect();
+            let mut st: Vec<(usize, usize, usize)> = points.iter().cloned().filter(|(j, _, _)| *j == 0).collect();
+            rng.shuffle(&mut st);
+            st.truncate(8);
+            rng.shuffle(&mut keep);
+            keep.truncate(30);
+            keep.extend(st);
+            points = keep;
+        }
+        for (j, k, _) in points {
+            // variants: clean boundary, torn prefixes, torn bits
+            let mut tears: Vec<Option<(usize, u8)>> = vec![None];
+            for p in 0..4 {
+                tears.push(Some((p, 0xFF))); // p bytes programmed, nothing of byte p
+                tears.push(Some((p, rng.next() as u8)));
+                if thorough {
+                    tears.push(Some((p, 1 << rng.below(8))));
+                    tears.push(Some((p, !(1u8 << rng.below(8)))));
+                }
+            }
+            if !thorough {
+                rng.shuffle(&mut tears[1..]);
+                tears.truncate(4);
+            }
+            for t in tears {
+                q.extend(s.head());
+                for op in &s.ops[..j] {
+                    q.push(op.clone());
+                }
+                match t {
+                    None => q.push(format!("crash {}", k)),
+                    Some((p, keep)) => q.push(format!("crash {} {} {}", k, p, keep)),
+                }
+                q.push(s.ops[j].clone());
+                post(&mut q);
+                o.stat(&format!("crash-in-{}", if j == 0 { "start" } else if s.ops[j] == "check" { "check" } else { "fragment" }));
+            }
+        }
+        // crashes inside recovery (remediation), cancel-all and the status marks
+        if let Some(ds) = done_slot {
+            let tail_ops: Vec<Vec<String>> = vec![
+                vec![format!("mark {} int", ds)],
+                vec![format!("mark {} int", ds), format!("mark {} ok", ds)],
+                vec![format!("mark {} int", ds), format!("mark {} bad", ds)],
+                vec!["start 4 18".into(), "reboot".into(), "recover".into()],
+                vec!["start 4 18".into(), "cancel".into()],
+                vec!["start 4 18".into(), "start 3 20".into(), "reboot".into(), "recover".into()],
+            ];
+            for tops in tail_ops {
+                // number of mutating ops of the last op of `tops` from a reference run
+                let mut l2 = s.head();
+                l2.extend(s.ops.clone());
+                l2.extend(tops.clone());
+                let a2 = reference(&l2);
+                let nk = nops(a2.last().unwrap());
+                for k in 0..nk.min(if thorough { 64 } else { 6 }) {
+                    for t in [None, Some((rng.below(4) as usize, rng.next() as u8)), Some((rng.below(4) as usize, 0xFFu8))] {
+                        q.extend(s.head());
+                        q.extend(s.ops.clone());
+                        for op in &tops[..tops.len() - 1] {
+                            q.push(op.clone());
+                        }
+                        match t {
+                            None => q.push(format!("crash {}", k)),
+                            Some((p, keep)) => q.push(format!("crash {} {} {}", k, p, keep)),
+                        }
+                        q.push(tops.last().unwrap().clone());
+                        post(&mut q);
+                        o.stat("crash-in-mark/recover/cancel");
+                    }
+                }
+            }
+        }
+    }
+    q
+}
+
+/// D6: long random histories of the slot ring (C05 C12 C13): start / deliver / complete / cancel / reboot+recover /
+/// copy-done / confirm / reject / power loss inside start; after every step the two queries are compared with the
+/// lifecycle oracle kept by the executor.
+pub fn gen_ring(seed: u64, thorough: bool, o: &mut Out) -> Vec<String> {
+    let mut rng = Rng::new(seed ^ 0xD6);
+    let mut q = vec![];
+    let nhist = if thorough { 400 } else { 40 };
+    for _ in 0..nhist {
+        let nslots = *rng.pick(&[4usize, 4, 5, 6]);
+        let slot = 20480;
+        q.push(format!("new dev {} {} 4096", nslots, slot));
+        let steps = rng.range(8, if thorough { 60 } else { 30 });
+        // generator-side view of what is pending, to respect "at most one image awaiting copy / acknowledgement"
+        let mut pending: Option<(usize, u8)> = None; // (slot, 0 = copy pending, 1 = ack pending)
+        let mut live = false;
+        let mut live_img: Option<Img> = None;
+        for _ in 0..steps {
+            let choice = rng.below(12);
+            match choice {
+                0..=3 => {
+                    // start (possibly starting over a live session), maybe deliver and complete
+                    let (isz, inn) = (*rng.pick(&[3usize, 4, 5]), rng.range(15, 24) as usize);
+                    let img = Img::make(&mut rng, isz, inn);
+                    q.extend(img.lines());
+                    // with a crash inside start in some cases
+                    if rng.chance(1, 5) {
+                        let ck = rng.below(14);
+                        q.push(format!("crash {}", ck));
+                        q.push(format!("start {} {}", img.sz, img.n));
+                        q.push("reboot".into());
+                        q.push("recover".into());
+                        live = false; // unknown: ask the reference below
+                        live_img = None;
+                        o.stat("ring-crash-in-start");
+                    } else {
+                        q.push(format!("start {} {}", img.sz, img.n));
+                        live = true;
+                        live_img = Some(img);
+                        o.stat("ring-start");
+                    }
+                }
+                4 | 5 => {
+                    if let (true, Some(img)) = (live, live_img.clone()) {
+                        if pending.is_none() {
+                            for i in 1..=img.n as u32 {
+                                q.push(format!("seg {} {}", i, hex(&img.fragment(i))));
+                            }
+                            q.push("check".into());
+                            // which slot: learn from the reference run
+                            let a = reference(&q);
+                            if let Some(sl) = a.last().and_then(|x| x.strip_prefix("res=Ok(")).and_then(|r| r.split(')').next()).and_then(|x| x.parse::<usize>().ok()) {
+                                pending = Some((sl, 0));
+                            }
+                            live = false;
+                            live_img = None;
+                            o.stat("ring-complete");
+                        }
+                    }
+                }
+                6 => {
+                    q.push("cancel".into());
+                    live = false;
+                    live_img = None;
+                    o.stat("ring-cancel");
+                }
+                7 => {
+                    q.push("reboot".into());
+                    q.push("recover".into());
+                    if rng.chance(1, 3) {
+                        q.push("recover".into()); // idempotence
+                    }
+                    // the live session survives a clean reboot (C07); keep `live` as is, but the image is still known
+                    o.stat("ring-reboot-recover");
+                }
+                8 | 9 => {
+                    if let Some((sl, st)) = pending {
+                        if st == 0 {
+                            q.push(format!("mark {} int", sl));
+                            pending = Some((sl, 1));
+                            o.stat("ring-copy-done");
+                        } else {
+                            if rng.chance(2, 3) {
+                                q.push(format!("mark {} ok", sl));
+                                o.stat("ring-confirm");
+                            } else {
+                                q.push(format!("mark {} bad", sl));
+                                o.stat("ring-reject");
+                            }
+                            pending = None;
+                        }
+                    }
+                }
+                10 => {
+                    // invalid parameters: must not touch anything
+                    let (bsz, bn) = (*rng.pick(&[0u32, 257, 4]), *rng.pick(&[0u32, 16385, 5000]));
+                    q.push(format!("start {} {}", bsz, bn));
+                    // a failed start drops the in-memory session object but not the on-flash session
+                    o.stat("ring-start-invalid");
+                }
+                _ => {
+                    // partial delivery
+                    if let (true, Some(img)) = (live, live_img.clone()) {
+                        for _ in 0..rng.range(1, 6) {
+                            let i = rng.range(1, img.n as u64 + 4) as u32;
+                            q.push(format!("seg {} {}", i, hex(&img.fragment(i))));
+                        }
+                    }
+                }
+            }
+            q.push("bl life".into());
+            q.push("fb life".into());
+        }
+        q.push("dump".into());
+    }
+    q
+}
